@@ -9,9 +9,10 @@ FAMS = [("Sat3", {}), ("Bool", {}), ("RatU", {"eps_acyclic": True}), ("Sat2", {}
 
 
 def generate(rng, tier, shard, nshards):
+    event = aops.variant_event(rng, skip=())
     for M in aops.tlc_automata(shard, nshards, every=2 if tier == "quick" else 1):     # (C) the TLC-enumerated family
         for fn in ("reverse", "star", "kleene_plus"):
-            yield aops.event("wop", {"sr": "Sat3", "A": M, "sigma": ["a"], "L": 3, "fn": fn}, site=f"WFSA.{fn}", feat="tlc-family")
+            yield event("wop", {"sr": "Sat3", "A": M, "sigma": ["a"], "L": 3, "fn": fn}, site=f"WFSA.{fn}", feat="tlc-family")
     n = 24 if tier == "quick" else 240
     L = 3 if tier == "quick" else 4
     sig = ["a", "b"]
@@ -24,12 +25,12 @@ def generate(rng, tier, shard, nshards):
         style, style2 = rng.choice(aops.STATE_STYLES), rng.choice(aops.STATE_STYLES)
         base = {"sr": srn, "A": A, "sigma": sig, "L": L, "style": style, "cls": cls}
         for fn in ("add", "mul"):
-            yield aops.event("wop", dict(base, fn=fn, B=B, style2=style2), site=f"WFSA.{fn}", feat=feat)
+            yield event("wop", dict(base, fn=fn, B=B, style2=style2), site=f"WFSA.{fn}", feat=feat)
         for fn in ("reverse", "renumber", "rename", "spawn_all"):
-            yield aops.event("wop", dict(base, fn=fn), site=f"WFSA.{fn}", feat=feat)
+            yield event("wop", dict(base, fn=fn), site=f"WFSA.{fn}", feat=feat)
         if srn in ("Sat3", "Sat2", "Bool"):
             for fn in ("star", "kleene_plus"):
-                yield aops.event("wop", dict(base, fn=fn, L=min(L, 3)), site=f"WFSA.{fn}", feat=feat)
+                yield event("wop", dict(base, fn=fn, L=min(L, 3)), site=f"WFSA.{fn}", feat=feat)
         else:
             # rationals: star needs A(eps) < 1; use operands whose initial state is not final and eps-free
             A2 = aops.rand_wfsa(rng, srn, nS=3, narcs=4, labels=("a", "b"), acyclic=True)
@@ -40,20 +41,20 @@ def generate(rng, tier, shard, nshards):
                 A2["I"] = [[0, [1, 2]]]
                 A2["F"].append([0, rng.choice([[1, 2], [1, 4], [1, 1]])])
             for fn in ("star", "kleene_plus"):
-                yield aops.event("wop", {"sr": srn, "A": A2, "sigma": sig, "L": 3, "fn": fn, "style": style, "cls": cls},
+                yield event("wop", {"sr": srn, "A": A2, "sigma": sig, "L": 3, "fn": fn, "style": style, "cls": cls},
                                  site=f"WFSA.{fn}", feat=aops.afeat(A2))
         R = aops.SR[srn]
         w = aops.enc_w(R, aops.us.mk(R, rng.choice([1, 2] if srn.startswith("Sat") else [1])))
-        yield aops.event("wlang", {"sr": srn, "ctor": "lift", "x": rng.choice(["a", "b", ""]), "w": w, "sigma": sig, "L": 2, "cls": cls},
+        yield event("wlang", {"sr": srn, "ctor": "lift", "x": rng.choice(["a", "b", ""]), "w": w, "sigma": sig, "L": 2, "cls": cls},
                          site="WFSA.lift", feat="ctor")
         xs = [rng.choice(sig) for _ in range(rng.randint(0, 3))]
-        yield aops.event("wlang", {"sr": srn, "ctor": "from_string", "xs": xs, "w": rng.choice([None, w]), "sigma": sig, "L": 3, "cls": cls},
+        yield event("wlang", {"sr": srn, "ctor": "from_string", "xs": xs, "w": rng.choice([None, w]), "sigma": sig, "L": 3, "cls": cls},
                          site="WFSA.from_string", feat="ctor")
         Xs = [[rng.choice(sig) for _ in range(rng.randint(0, 3))] for _ in range(rng.randint(0, 4))]
-        yield aops.event("wlang", {"sr": srn, "ctor": "from_strings", "Xs": Xs, "sigma": sig, "L": 3, "cls": cls},
+        yield event("wlang", {"sr": srn, "ctor": "from_strings", "Xs": Xs, "sigma": sig, "L": 3, "cls": cls},
                          site="WFSA.from_strings", feat="ctor")
         for k in ("zero", "one"):
-            yield aops.event("wlang", {"sr": srn, "ctor": k, "M": A, "sigma": sig, "L": 2}, site=f"WFSA.{k}", feat="ctor")
+            yield event("wlang", {"sr": srn, "ctor": k, "M": A, "sigma": sig, "L": 2}, site=f"WFSA.{k}", feat="ctor")
         # plus / star of an automaton that already has epsilon links from final to initial states (a result of plus)
         A3 = aops.rand_wfsa(rng, srn, nS=rng.choice([2, 3]), narcs=3, labels=("a", "b"), acyclic=True)
         A3["I"] = [[0, A3["I"][0][1]]]
@@ -62,12 +63,12 @@ def generate(rng, tier, shard, nshards):
         if srn in ("RatU", "Rat"):
             for r in A3["arcs"] + A3["I"] + A3["F"]:
                 r[-1] = [1, 2]
-        e1 = aops.event("wop", {"sr": srn, "A": A3, "sigma": sig, "L": 3, "fn": "kleene_plus", "style": style, "cls": cls},
+        e1 = event("wop", {"sr": srn, "A": A3, "sigma": sig, "L": 3, "fn": "kleene_plus", "style": style, "cls": cls},
                         site="WFSA.kleene_plus", feat="plus")
         yield e1
         if "exc" not in e1 and not e1.get("skip"):
             for fn in ("kleene_plus", "star"):
-                yield aops.event("wop", {"sr": srn, "A": e1["out"], "sigma": sig, "L": 3, "fn": fn, "style": style2, "cls": cls},
+                yield event("wop", {"sr": srn, "A": e1["out"], "sigma": sig, "L": 3, "fn": fn, "style": style2, "cls": cls},
                                  site=f"WFSA.{fn}(plus)", feat="plus-of-plus")
         # nested expressions: the (projected) result of one operation is the operand of the next, each step judged
         cur = A
@@ -78,7 +79,7 @@ def generate(rng, tier, shard, nshards):
                     "style": rng.choice(aops.STATE_STYLES), "cls": cls}
             if fn in ("add", "mul"):
                 args["B"], args["style2"] = B, style2
-            e = aops.event("wop", args, site=f"WFSA.nested/{fn}", feat="nested+" + feat)
+            e = event("wop", args, site=f"WFSA.nested/{fn}", feat="nested+" + feat)
             yield e
             if "exc" in e or e.get("skip") or e["out"]["n"] > 6:
                 break
